@@ -122,12 +122,17 @@ type chanHandler struct {
 // nextMessage wait for one message and puts it to the incoming channel
 func (c *wsConn) nextMessage() {
 	c.resetReadDeadline()
-	msgType, r, err := c.conn.NextReader()
+	conn := c.conn
+	msgType, r, err := conn.NextReader()
 	if err != nil {
 		c.errLk.Lock()
 		c.incomingErr = err
 		vhook("reader.err", c)
 		c.errLk.Unlock()
+		// nothing more will be read from this connection. Whoever is writing to it
+		// must not stay in that write: the connection loop itself may be, and it is
+		// the one that has to act on the loss (a write has no deadline of its own)
+		_ = conn.Close()
 		close(c.incoming)
 		return
 	}
